@@ -260,17 +260,69 @@ def station_load(ctx: Ctx):
 def stats(ctx: Ctx):
     h = ctx.repo.func(SH, "StatsHandler.handle")
     rs = h.params[1]
+    cnt = f"Counter(map(lambda r: r.report_type, {rs}))"
+    n = 0
+    all_ok = True
+    why = ""
+    for p in flow.paths(h.node):
+        if p.kind == "raise":
+            continue
+        n += 1
+        got = {}
+        for s in p.stores:
+            got[flow.dump(s.raw)] = flow.dump(s.value) if s.value is not None else None
+        ok = got.get("self.stats.requests") == f"{cnt}[ReportType.ADD_REQUEST_EVENT]" and got.get("self.stats.cancelled_requests") == f"{cnt}[ReportType.CANCEL_REQUEST_EVENT]"
+        if not ok:
+            all_ok = False
+            why = f"path [{p.cond_text()[:160]}] ends with requests += {got.get('self.stats.requests')}, cancelled += {got.get('self.stats.cancelled_requests')}"
+    ctx.check(all_ok and n >= 1, "D2", "EV.stats", "on EVERY path of StatsHandler.handle the summary request/cancel counts grow by the number of ADD/CANCEL events in the flushed list", h,
+              why_bad=why + ": add / cancel events flushed on that path are missing from the summary", construct="StatsHandler.handle:counts")
     got = {}
     for p in flow.paths(h.node):
         for s in p.stores:
             got[flow.dump(s.raw)] = flow.dump(s.value) if s.value is not None else None
-    cnt = f"Counter(map(lambda r: r.report_type, {rs}))"
-    ok = got.get("self.stats.requests") == f"{cnt}[ReportType.ADD_REQUEST_EVENT]" and got.get("self.stats.cancelled_requests") == f"{cnt}[ReportType.CANCEL_REQUEST_EVENT]"
-    ctx.check(ok, "D2", "EV.stats", "summary request/cancel counts += number of ADD/CANCEL events in the flushed list", h,
-              why_bad=f"requests += {got.get('self.stats.requests')}, cancelled += {got.get('self.stats.cancelled_requests')}", construct="StatsHandler.handle:counts")
     vk = [v for k, v in got.items() if k.startswith("self.stats.vkt[")]
     ok = bool(vk) and all("report['distance_km']" in v for v in vk) and "ReportType.VEHICLE_MOVE_EVENT" in ctx.repo.module(SH).segment(h.node)
     ctx.check(ok, "D2", "EV.stats", "vkt += distance_km of the move events", h, why_bad=f"{vk}", construct="StatsHandler.handle:vkt")
+    wait_time(ctx)
+
+
+def wait_time(ctx: Ctx):
+    """The pickup record's waiting time: time_diff(request time of day, pickup time of day), where time_diff adds a day
+    to a negative difference (a wait across midnight), and nothing else."""
+    repo = ctx.repo
+    TH = "nrel/hive/util/time_helpers.py"
+    fn = repo.func(TH, "time_diff")
+    a, b = fn.params[:2]
+    dur = f"datetime.combine(date.min, {b}) - datetime.combine(date.min, {a})"
+    seen = set()
+    good = True
+    for p in flow.paths(fn.node):
+        if p.kind != "return":
+            continue
+        d = flow.dump(p.value)
+        facts = [(flow.dump(x), pol) for x, pol in p.facts()]
+        if (f"{a} == {b}", True) in facts:
+            good = good and d == "timedelta()"
+            seen.add("eq")
+        elif (f"({dur}).days == -1", True) in facts:
+            good = good and d == f"{dur} + timedelta(days=1)"
+            seen.add("neg")
+        elif (f"({dur}).days == -1", False) in facts:
+            good = good and d == dur
+            seen.add("pos")
+        else:
+            good = False
+    ctx.check(good and seen == {"eq", "neg", "pos"}, "D5", "EV.formula", "time_diff: end - start on the clock, plus one day exactly when the difference is negative (wrap over midnight)", fn,
+              why_bad="a wait that spans midnight is no longer reported as the (short) real wait", construct="time_diff:wrap")
+    fn = repo.func(VEO, "report_pickup_request")
+    veh, req, nsim = fn.params[:3]
+    d = _report_dict(fn, "PICKUP_REQUEST_EVENT")
+    ev = f"{nsim}.sim_time - {nsim}.sim_timestep_duration_seconds"
+    ok = d is not None and flow.dump(d.get("wait_time_seconds", ast.Constant(value=None))) == f"time_diff({req}.departure_time.as_datetime_time(), ({ev}).as_datetime_time())" \
+        and flow.dump(d.get("request_id", ast.Constant(value=None))) == f"{req}.id" and flow.dump(d.get("vehicle_id", ast.Constant(value=None))) == f"{veh}.id"
+    ctx.check(ok, "D5", "EV.formula", "pickup event: wait = time_diff(request time of day, pickup time of day); ids of the picked request and picking vehicle", fn,
+              why_bad=f"wait_time_seconds = {flow.dump(d.get('wait_time_seconds', ast.Constant(value=None)))[:160] if d else '?'}", construct="report_pickup_request:fields")
 
 
 def tables(ctx: Ctx):
